@@ -194,18 +194,11 @@ Qed.
 Theorem x_embed_unser : forall f e s v, xunser f (E e) (embed s) v = unser f e s v.
 Proof. exact xe_unser_all. Qed.
 
-(* STATED, NOT PROVED HERE (the full statement stays visible):
-
-     Theorem x_embed_validate  : forall f e s v, xvalidate  f (E e) (embed s) v = validate  f e s v.
-     Theorem x_embed_serialize : forall f e s v, xserialize f (E e) (embed s) v = serialize f e s v.
-     Theorem x_embed_compat    : forall f e s v, xcompat    f (E e) (embed s) v = compat    f e s v.
-
-   These three are mutually recursive through the one-of lookup (xoneof_find / oneof_find, which calls
-   compat on the member).  The same solver discharges every constructor except the one-of lookup, whose
-   compiled pattern matching (11 copies of the member check under the discriminator match) made the proof
-   script exceed the time limit of this round; `emb3`/`emb_at` below are the invariant to use.  Until then
-   the three equations are carried by the tie: the `structobj` cases contain map-based members and map-based
-   one-property objects, and op `x` runs Ops.unser on `erase s` next to XOps.xunser on `s`. *)
+(* Validate, Serialize and data-mode ValidateCompatibility are mutually recursive through the one-of lookup
+   (xoneof_find / oneof_find, which calls compat on the member): they are proved together, by induction on
+   the fuel, with the invariant `emb_at`.  The one-of lookup is factored first (its compiled pattern match
+   holds 11 copies of the member check): `xe_oneof_tail` is the member check, `xe_oneof_find_step` the
+   characterisation of one unfolding of xoneof_find on an embedded member list. *)
 Definition emb3 (o : outcome (okey * schema * gval)) : outcome (okey * xschema * gval) :=
   match o with
   | Ok (k, m, d) => Ok (k, embed m, d)
@@ -219,6 +212,209 @@ Definition emb_at (f : nat) : Prop :=
   (forall e s v, xserialize f (E e) (embed s) v = serialize f e s v) /\
   (forall e s v, xcompat f (E e) (embed s) v = compat f e s v).
 
+(* the part of the lookup after the typed discriminator `key` has been read *)
+Definition xe_tail (f : nat) (e : env) (ts : list (okey * schema)) (key : okey) (il : bool) (fld : string)
+                   (kvs : list (gval * gval)) : outcome (okey * schema * gval) :=
+  match find (fun ks => okey_eqb (fst ks) key) ts with
+  | None => Err (cerr EKey)
+  | Some (_, member) =>
+      let clone := VMap t_str_map false (if il then kvs else smap_del fld kvs) in
+      _ <- rewrap_path (compat f e member clone) ;; Ok (key, member, clone)
+  end.
+Definition xe_xtail (f : nat) (e : xenv) (ts : list (okey * xschema)) (key : okey) (il : bool) (fld : string)
+                    (kvs : list (gval * gval)) : outcome (okey * xschema * gval) :=
+  match find (fun ks => okey_eqb (fst ks) key) ts with
+  | None => Err (cerr EKey)
+  | Some (_, member) =>
+      let clone := VMap t_str_map false (if il then kvs else smap_del fld kvs) in
+      _ <- rewrap_path (xcompat f e member clone) ;; Ok (key, member, clone)
+  end.
+
+Lemma xe_oneof_tail f e ts key il fld kvs :
+  (forall e s v, xcompat f (E e) (embed s) v = compat f e s v) ->
+  xe_xtail f (E e) (emb_types ts) key il fld kvs = emb3 (xe_tail f e ts key il fld kvs).
+Proof.
+  intros Hc. unfold xe_xtail, xe_tail, emb_types. rewrite xe_find_key.
+  destruct (find (fun ks => okey_eqb (fst ks) key) ts) as [[k m]|]; cbn [option_map fst snd]; [|reflexivity].
+  rewrite Hc.
+  destruct (compat f e m (VMap t_str_map false (if il then kvs else smap_del fld kvs))); reflexivity.
+Qed.
+
+Lemma xe_gtype_eqb_true a : forall b, gtype_eqb a b = true -> a = b.
+Proof.
+  induction a; intros b H; destruct b; cbn in H; try discriminate; try reflexivity.
+  - destruct k, k0; try discriminate; reflexivity.
+  - apply andb_prop in H. destruct H as [H1 H2]. apply String.eqb_eq in H1. apply IHa in H2. subst. reflexivity.
+  - apply IHa in H. subst. reflexivity.
+  - apply andb_prop in H. destruct H as [H1 H2]. apply IHa1 in H1. apply IHa2 in H2. subst. reflexivity.
+  - apply IHa in H. subst. reflexivity.
+  - apply String.eqb_eq in H. subst. reflexivity.
+  - apply String.eqb_eq in H. subst. reflexivity.
+Qed.
+
+(* one unfolding of the lookup on an embedded member list, given compat at the fuel below *)
+Lemma xe_oneof_find_step f e ts ik fld il v :
+  (forall e s v, xcompat f (E e) (embed s) v = compat f e s v) ->
+  xoneof_find (S f) (E e) (emb_types ts) ik fld il v = emb3 (oneof_find (S f) e ts ik fld il v).
+Proof.
+  intros Hc.
+  assert (Hns : forall tv, find (fun ks => match xstruct_rtype (E e) (snd ks) with Some t => gtype_eqb t tv | None => false end)
+                             (emb_types ts) = None) by (intros tv; apply xe_find_struct).
+  destruct v as [|t b|t z|t x|t s|t b l|t b kvs|t o|t fs|src|k d];
+    cbn [XOps.xoneof_find Ops.oneof_find kind_of type_of].
+  1: reflexivity.
+  1-5, 7-8: destruct (kind_of_type t); cbn [is_str_any_map emb3]; rewrite ?Hns; reflexivity.
+  2: rewrite Hns; reflexivity.
+  2: destruct k; cbn [emb3]; rewrite ?Hns; reflexivity.
+  (* a map *)
+  cbn [is_str_any_map].
+  destruct (gtype_eqb t t_str_map) eqn:Ht.
+  2: destruct (kind_of_type t); cbn [emb3]; rewrite ?Hns; reflexivity.
+  apply xe_gtype_eqb_true in Ht. subst t. cbn [kind_of_type underlying t_str_map].
+  destruct (smap_get fld kvs) as [d|]; [|reflexivity].
+  destruct d as [|t1 b1|t1 z1|t1 x1|t1 s1|t1 b1 l1|t1 b1 l1|t1 o1|t1 fs1|src1|k1 d1]; try reflexivity;
+    destruct ik; try reflexivity.
+  - destruct t1 as [|k| | | | | | | | | | |]; try reflexivity. destruct k; try reflexivity.
+    exact (xe_oneof_tail f e ts (KI z1) il fld kvs Hc).
+  - destruct t1; try reflexivity.
+    exact (xe_oneof_tail f e ts (KS s1) il fld kvs Hc).
+Qed.
+
+(* one-step equations of the one-of cases, with the sibling functions folded *)
+Lemma xe_xvalidate_oneof f e ts ik fld il v :
+  xvalidate (S f) e (XOneOf ts ik fld il) v =
+  (km <- xoneof_find f e ts ik fld il v ;;
+   let '(key, member, data') := km in seg (oneof_seg key) (xvalidate f e member data')).
+Proof. reflexivity. Qed.
+Lemma xe_validate_oneof f e ts ik fld il v :
+  validate (S f) e (SOneOf ts ik fld il) v =
+  (km <- oneof_find f e ts ik fld il v ;;
+   let '(key, member, data') := km in seg (oneof_seg key) (validate f e member data')).
+Proof. reflexivity. Qed.
+Lemma xe_xserialize_oneof f e ts ik fld il v :
+  xserialize (S f) e (XOneOf ts ik fld il) v =
+  (km <- xoneof_find f e ts ik fld il v ;;
+   let '(key, member, data') := km in
+   x <- xserialize f e member data' ;;
+   match is_str_any_map x with
+   | Some xs =>
+       match smap_get fld xs with
+       | Some _ => Ok x
+       | None => Ok (VMap t_str_map false
+                       (map_set (vstr fld) (match key with KI z => vi64 z | KS s0 => vstr s0 end) xs))
+       end
+   | None => Panic "one-of member serialized to a non-map"
+   end).
+Proof. reflexivity. Qed.
+Lemma xe_serialize_oneof f e ts ik fld il v :
+  serialize (S f) e (SOneOf ts ik fld il) v =
+  (km <- oneof_find f e ts ik fld il v ;;
+   let '(key, member, data') := km in
+   x <- serialize f e member data' ;;
+   match is_str_any_map x with
+   | Some xs =>
+       match smap_get fld xs with
+       | Some _ => Ok x
+       | None => Ok (VMap t_str_map false
+                       (map_set (vstr fld) (match key with KI z => vi64 z | KS s0 => vstr s0 end) xs))
+       end
+   | None => Panic "one-of member serialized to a non-map"
+   end).
+Proof. reflexivity. Qed.
+Lemma xe_xcompat_oneof f e ts ik fld il v :
+  xcompat (S f) e (XOneOf ts ik fld il) v =
+  match is_str_any_map v with
+  | Some _ => _ <- xoneof_find f e ts ik fld il v ;; Ok tt
+  | None =>
+      match kind_of v with
+      | KStruct => Err (cerr ERepr)
+      | KPtr => match v with
+                | VPtr _ (Some (VStruct _ _)) | VOpaque OPtr _ => Err (cerr ERepr)
+                | VPtr _ None => Err (cerr ERepr)
+                | _ => xvalidate f e (XOneOf ts ik fld il) v
+                end
+      | _ => xvalidate f e (XOneOf ts ik fld il) v
+      end
+  end.
+Proof. reflexivity. Qed.
+Lemma xe_compat_oneof f e ts ik fld il v :
+  compat (S f) e (SOneOf ts ik fld il) v =
+  match is_str_any_map v with
+  | Some _ => _ <- oneof_find f e ts ik fld il v ;; Ok tt
+  | None =>
+      match kind_of v with
+      | KStruct => Err (cerr ERepr)
+      | KPtr => match v with
+                | VPtr _ (Some (VStruct _ _)) | VOpaque OPtr _ => Err (cerr ERepr)
+                | VPtr _ None => Err (cerr ERepr)
+                | _ => validate f e (SOneOf ts ik fld il) v
+                end
+      | _ => validate f e (SOneOf ts ik fld il) v
+      end
+  end.
+Proof. reflexivity. Qed.
+
+Ltac xe_ih IHu IHv IHs IHc :=
+  first [ apply IHu | apply IHv | apply IHs | apply IHc
+        | exact (IHc _ SAny _)
+        | exact (IHu _ (SInt _ _ _) _) | exact (IHu _ (SFloat _ _ _) _) | exact (IHu _ SBool _)
+        | exact (IHu _ (SString _ _ _) _) | exact (IHu _ (SObject _ _ _) _)
+        | exact (IHv _ (SEnumInt _ _) _) | exact (IHv _ (SEnumStr _ _) _) | exact (IHv _ SPattern _)
+        | exact (IHv _ (SList _ _ _) _) | exact (IHv _ (SMap _ _ _ _) _) | exact (IHv _ (SOneOf _ _ _ _) _) ].
+
+Lemma xe_emb_at : forall f, emb_at f.
+Proof.
+  induction f as [|f IH].
+  - repeat split; reflexivity.
+  - destruct IH as (IHu & IHv & IHo & IHs & IHc). unfold emb_types in IHo.
+    assert (Hu : forall e s v, xunser (S f) (E e) (embed s) v = unser (S f) e s v) by (intros; apply xe_unser_all).
+    split; [exact Hu|].
+    split; [|split; [|split]].
+    + (* validate *)
+      intros e s v. destruct s.
+      12: { cbn [embed]. rewrite xe_xvalidate_oneof, xe_validate_oneof, IHo.
+            destruct (oneof_find f e types int_keys field inlined v) as [[[k m] d]|?|?|]; cbn [emb3 bind]; try reflexivity.
+            apply f_equal. apply IHv. }
+      all: cbn [embed XOps.xvalidate Ops.validate]; xe_solve ltac:(xe_ih IHu IHv IHs IHc).
+    + (* the one-of lookup *)
+      intros e ts ik fld il v. apply xe_oneof_find_step. exact IHc.
+    + (* serialize *)
+      intros e s v. destruct s.
+      12: { cbn [embed]. rewrite xe_xserialize_oneof, xe_serialize_oneof, IHo.
+            destruct (oneof_find f e types int_keys field inlined v) as [[[k m] d]|?|?|]; cbn [emb3 bind]; try reflexivity.
+            rewrite IHs. reflexivity. }
+      all: cbn [embed XOps.xserialize Ops.serialize]; xe_solve ltac:(xe_ih IHu IHv IHs IHc).
+    + (* compat *)
+      intros e s v. destruct s.
+      12: { cbn [embed]. rewrite xe_xcompat_oneof, xe_compat_oneof.
+            destruct (is_str_any_map v) as [kvs|].
+            - rewrite IHo. destruct (oneof_find f e types int_keys field inlined v) as [[[k m] d]|?|?|]; reflexivity.
+            - change (XOneOf (map (fun ks : okey * schema => (fst ks, embed (snd ks))) types) int_keys field inlined)
+                with (embed (SOneOf types int_keys field inlined)).
+              rewrite IHv. reflexivity. }
+      all: cbn [embed XOps.xcompat Ops.compat]; xe_solve ltac:(xe_ih IHu IHv IHs IHc).
+Qed.
+
+(* Conservativity of Validate, Serialize and data-mode ValidateCompatibility: on a schema without struct
+   information the extension IS Ops.v, for every fuel, environment, schema and Go value; the one-of lookup
+   returns the embedded member of the member Ops.oneof_find returns. *)
+Theorem x_embed_validate : forall f e s v, xvalidate f (E e) (embed s) v = validate f e s v.
+Proof. intros f. exact (proj1 (proj2 (xe_emb_at f))). Qed.
+
+Theorem x_embed_oneof_find : forall f e ts ik fld il v,
+  xoneof_find f (E e) (emb_types ts) ik fld il v = emb3 (oneof_find f e ts ik fld il v).
+Proof. intros f. exact (proj1 (proj2 (proj2 (xe_emb_at f)))). Qed.
+
+Theorem x_embed_serialize : forall f e s v, xserialize f (E e) (embed s) v = serialize f e s v.
+Proof. intros f. exact (proj1 (proj2 (proj2 (proj2 (xe_emb_at f))))). Qed.
+
+Theorem x_embed_compat : forall f e s v, xcompat f (E e) (embed s) v = compat f e s v.
+Proof. intros f. exact (proj2 (proj2 (proj2 (proj2 (xe_emb_at f))))). Qed.
+
 End Embed.
 
 Print Assumptions x_embed_unser.
+Print Assumptions x_embed_validate.
+Print Assumptions x_embed_oneof_find.
+Print Assumptions x_embed_serialize.
+Print Assumptions x_embed_compat.
